@@ -661,7 +661,7 @@ impl Check for C25 {
     fn cases(&self, tier: Tier) -> u64 {
         match tier {
             Tier::Quick => 8_000,
-            Tier::Thorough => 200_000,
+            Tier::Thorough => 400_000,
         }
     }
     fn tape_len(&self, _t: Tier) -> usize {
